@@ -418,9 +418,17 @@ def walk_dollar_expansion(buff, pos, end, endchar, disable_quote=False):
     if pos == "$":
         return pos + 1
     while pos < end and buff[pos] != "}":
-        if buff[pos] == "$":
-            # disable_quote?
-            pos = walk_dollar_expansion(buff, pos + 1, end, endchar)
+        ch = buff[pos]
+        if ch == "$":
+            pos = walk_dollar_expansion(buff, pos + 1, end, endchar, disable_quote)
+        elif ch == "\\":
+            # an escaped char (notably \}) doesn't close the expansion
+            pos += 2
+        elif ch == '"':
+            # a quoted string inside the expansion may hold a }
+            pos = walk_command_escaped_parsing(buff, pos + 1, '"') + 1
+        elif ch == "'" and not disable_quote:
+            pos = walk_statement_no_parsing(buff, pos + 1, "'") + 1
         else:
             pos += 1
     return pos + 1
